@@ -93,6 +93,15 @@ def handle : List String → String
       | .ok v =>
         let o := v.out
         s!"ok cl={showOptNat o.cl} te={showBool o.te} conn={showOptBool o.conn} ce={showCoding o.ce} expect={showBool o.expect} wch={showBool o.wchunked} wz={showBool o.wcompress} writes={showBool o.writes} limit={showOptNat o.limit} wire={showFraming v.wire} view={showView v.view} sclose={showBool v.serverClose}"
+  | ["wend", o] =>
+    let oc : Option SrcOutcome := match o with
+      | "ok" => some .ok | "oserror" => some .osError | "exception" => some .exception
+      | "cancelled" => some .cancelled | _ => none
+    match oc with
+    | none => "bad-op"
+    | some oc =>
+      let e := writeBytesEnd oc
+      s!"eof={showBool e.writesEof} fails={showBool e.failsRequest} closes={showBool e.closesConn}"
   | "feed" :: rest => Aio.Driver.Http.handle ("feed" :: rest)
   | _ => "bad-op"
 
